@@ -150,11 +150,13 @@ def apply_rules(text, names, unit, where):
     return text
 
 
-def extract_unit(name, repo=None):
+def extract_unit(name, repo=None, drop=None):
+    """drop: set of (fn qual, template line) of overlay directives to leave out (hint-free re-verification)."""
     repo = repo or REPO
     tpath = os.path.join(VERIF, "units", name + ".rs")
     unit = Unit(name)
     unit.repo = repo
+    unit.drop = set(drop or ())
     rulesmod.LITS.clear()
     _process(unit, tpath, repo)
     return unit
@@ -386,6 +388,8 @@ def _emit_body(unit, fnrec, dirs):
             inserts.append((off, " " + m.group(2).strip() + " ", tl))
             continue
         raise Inconclusive("template error: bad directive in %s: %s" % (fnrec["qual"], d[:60]))
+    inserts = [x for x in inserts if (fnrec["qual"], x[2]) not in getattr(unit, "drop", ())]
+    fnrec["inserts"] = [{"tl": tl, "text": text.strip()} for (_, text, tl) in inserts]
     # apply inserts back to front (stable for equal offsets: keep template order)
     order = sorted(range(len(inserts)), key=lambda k: (inserts[k][0], k), reverse=True)
     # for equal offsets, later directives should come after earlier ones: process reversed order correctly
